@@ -405,9 +405,16 @@ namespace AIToolbox {
                     if ((*enumerator)[i] >= alphasSize)
                         result[(*enumerator)[i] - alphasSize] = 0.0;
 
+                // Parallel or otherwise degenerate planes give a singular
+                // system: the least-squares answer is then not a solution of
+                // the equations, and thus not a vertex.
+                Vector residual = m.topRows(counter) * result;
+                residual[counter-1] -= 1.0;
+                const bool solved = residual.cwiseAbs().maxCoeff() <= equalToleranceSmall;
+
                 // Add to found only if valid, otherwise skip.
                 const double max = result.head(S).maxCoeff();
-                if ((result.head(S).array() >= 0).all() && (max < 1.0) && checkDifferentSmall(max, 1.0)) {
+                if (solved && (result.head(S).array() >= 0).all() && (max < 1.0) && checkDifferentSmall(max, 1.0)) {
                     vertices.first.emplace_back(result.head(S));
                     vertices.second.emplace_back(result[S]);
                 }
